@@ -1,5 +1,6 @@
 use crate::{Ctx, Out};
 
+pub mod c01;
 pub mod c02;
 pub mod c17;
 pub mod c18;
@@ -11,6 +12,7 @@ pub mod c27;
 
 pub fn run(ctx: &Ctx, out: &mut Out) -> bool {
     match ctx.prop.as_str() {
+        "C01" => c01::run(ctx, out),
         "C02" => c02::run(ctx, out),
         "C17" => c17::run(ctx, out),
         "C18" => c18::run(ctx, out),
